@@ -616,6 +616,7 @@ class StmtMixin:
         sub = self.pure_eval()
         sub.entry_env = cenv
         sub.old_heap = dict(self.path.heap)
+        sub.alloc_base = self.path.heap.get("$alloc")
         # old() in the callee's clauses: the registries as they are at the call
         sub.old_globals = {g: self.global_map_array(g) for g in getattr(c, "global_maps", {})}
         # preconditions
